@@ -597,9 +597,10 @@ def generate(run_seed, tier='quick'):
     rng = np.random.RandomState(run_seed % (2 ** 32))
     thorough = tier == 'thorough'
     dims = sorted(set(int(d) for d in rng.choice(
-        [2, 3, 4, 5, 6] if thorough else [2, 3, 4, 5],
+        [2, 3, 4, 5, 6, 7, 8] if thorough else [2, 3, 4, 5, 6],
         size=int(rng.randint(1, 4)), replace=False)))
     g = ops.G(rng, dims, thorough)
+    g.big = bool(rng.uniform() < (0.10 if thorough else 0.06))
     mode = g.choice(['reuse', 'split', 'broad'])
     fault_kinds = g.choice([[], [], ['interrupt'], ['cancel'], ['lapack'],
                             ['interrupt', 'cancel', 'lapack']])
